@@ -198,6 +198,8 @@ func (s *vfSticky) event(op vfStickyOp, d *vfDialog, rnd *rand.Rand, expires int
 		var extra []vfHdr
 		if expires > 0 {
 			extra = append(extra, vfHdr{"Expires", fmt.Sprint(expires)})
+		} else if expires == -1 { // an explicit "Expires: 0": the lifetime is max(dialog timeout, 0) = the dialog timeout
+			extra = append(extra, vfHdr{"Expires", "0"})
 		}
 		code := []int{200, 200, 180, 183}[rnd.Intn(4)]
 		d.cseq = 1
@@ -242,6 +244,8 @@ func (s *vfSticky) event(op vfStickyOp, d *vfDialog, rnd *rand.Rand, expires int
 		var extra []vfHdr
 		if expires > 0 {
 			extra = append(extra, vfHdr{"Expires", fmt.Sprint(expires)})
+		} else if expires == -1 { // an explicit "Expires: 0": the lifetime is max(dialog timeout, 0) = the dialog timeout
+			extra = append(extra, vfHdr{"Expires", "0"})
 		}
 		d.cseq = 1
 		s.step("subscribe-answered", s.g.ip("10.0.1.1"), 5070, s.response(d, 200, "SUBSCRIBE", vias, true, extra...))
@@ -379,6 +383,8 @@ func TestVfSticky(t *testing.T) {
 				life := time.Duration(Tms) * time.Millisecond
 				if rnd.Intn(5) == 0 {
 					exp, life = 1, time.Second
+				} else if rnd.Intn(3) == 0 {
+					exp = -1
 				}
 				if rnd.Intn(3) == 0 {
 					s.event(vfStickyOp{Op: "bsub", B: fmt.Sprintf("b%d", 1+rnd.Intn(len(s.backs)))}, ds[j], rnd, exp)
